@@ -958,8 +958,15 @@ func fatRefill(fr *fatRun, fs filesystem.FileSystem, cs int, step func(fsdrive.O
 		var accepted int64
 		var names []string
 		hitFull := false
+		// the files go into a subdirectory: the root directory of FAT12/16 has a fixed number of entries and would
+		// be full long before the clusters are (root-directory exhaustion is a workload of its own)
+		if cyc == 0 {
+			if !step(fsdrive.Op{Kind: "mkdir", Path: "fill"}) {
+				return
+			}
+		}
 		for i := 0; i < 100000; i++ {
-			name := fmt.Sprintf("fill%04d.bin", i)
+			name := fmt.Sprintf("fill/fill%04d.bin", i)
 			n := sizes[i%len(sizes)]
 			op := fsdrive.Op{Kind: "write", Path: name, Len: n, DSeed: uint64(cyc*100000 + i + 1)}
 			if !step(op) {
@@ -1090,7 +1097,7 @@ func fatRegrow(fr *fatRun, fs filesystem.FileSystem, cs int, step func(fsdrive.O
 	}
 	full := false
 	for i := 0; i < 100000 && !full; i++ {
-		if !step(fsdrive.Op{Kind: "write", Path: fmt.Sprintf("fill%05d.bin", i), Len: []int{cs * 97, cs * 8, cs}[i%3], DSeed: uint64(100 + i)}) {
+		if !step(fsdrive.Op{Kind: "write", Path: fmt.Sprintf("late/fill%05d.bin", i), Len: []int{cs * 97, cs * 8, cs}[i%3], DSeed: uint64(100 + i)}) {
 			return
 		}
 		full = refused()
